@@ -383,6 +383,12 @@ def _on_terms(terms_by_decl):
             out.append(z3.Implies(z3.And(0 <= i, i < n), iget(sq, i) == mvar(g, i + 1, v)))
     for (A, n) in terms_by_decl.get('iofarr', []):
         out.append(z3.Implies(n >= 0, ilen(iofarr(A, n)) == n))                          # Seq.lean iofarr_len
+        # CnfSem.lean iofarr_pred: the list of length n is the list of length n-1 plus its last entry
+        last = z3.Select(A, n - 1)
+        out.append(z3.Implies(n >= 1, iofarr(A, n) == isnoc(iofarr(A, n - 1), z3.simplify(last) if z3.is_quantifier(A) else last)))
+        if z3.is_app(A) and A.decl().kind() == z3.Z3_OP_STORE:
+            # CnfSem.lean iofarr_store_ge: a store at or beyond the length is invisible
+            out.append(z3.Implies(A.arg(1) >= n, iofarr(A, n) == iofarr(A.arg(0), n)))
     for (sq, i) in terms_by_decl.get('iget', []):
         if z3.is_app(sq) and sq.decl().name() == 'iofarr':
             A, n = sq.children()
